@@ -43,6 +43,9 @@ void sim_wstats_get(struct sim_wstats *);
 /* log of write calls (sizes) since arm, for exhaustive single-fault sweeps */
 size_t sim_wlog(uint32_t *sizes, size_t max);
 
+/* ---- open fault ---- */
+void sim_open_swap_with(const char *replacement);	/* the next open() without O_CREAT finds `replacement` renamed over its path (one shot; NULL = off) */
+
 /* ---- mmap mode ---- */
 void sim_mmap_fail_in(int n);	/* fault: the n-th mmap call from now fails with ENOMEM (one shot; 0 = off) */
 void sim_mmap_track(int on);	/* 1: remember real mappings made through the seam ... */
@@ -57,7 +60,7 @@ uint64_t sim_clock_reads(void);
 
 /* ---- ledger ---- */
 struct sim_ledger {
-	int64_t opens, closes, dups, mmaps, munmaps, mkstemps, unlinks, mmap_failures;
+	int64_t opens, closes, dups, mmaps, munmaps, mkstemps, unlinks, mmap_failures, open_swaps;
 	int64_t live_fds, live_maps, live_tmp;
 };
 void sim_ledger_get(struct sim_ledger *);
